@@ -147,3 +147,30 @@ VARIANTS += [
  dict(name='conclude-helper-does-not-record', file=V, expect='flagged(consistency/(*ngo/verifier.verifier).Verify)', find=NO_OLD, replace=NO_NEW, edits=[conclude('\treturn outcome, err\n')]),
  dict(name='conclude-helper-returns-nil-error', file=V, expect='flagged(consistency/(*ngo/verifier.verifier).Verify)', find=NO_OLD, replace=NO_NEW, edits=[conclude('\toutcome.Error = err\n\treturn outcome, nil\n')]),
 ]
+
+# an index handed back by a helper (positions remembered while scanning, -1 for none)
+TP = 'verifier/trustpolicy/oci.go'
+IDX_OLD = '\tvar wildcardPolicy *OCITrustPolicy\n\tvar applicablePolicy *OCITrustPolicy\n\tfor _, policyStatement := range policyDoc.TrustPolicies {\n\t\tif slices.Contains(policyStatement.RegistryScopes, trustpolicy.Wildcard) {\n\t\t\t// we need to deep copy because we can\'t use the loop variable\n\t\t\t// address. see https://stackoverflow.com/a/45967429\n\t\t\twildcardPolicy = (&policyStatement).clone()\n\t\t} else if slices.Contains(policyStatement.RegistryScopes, artifactPath) {\n\t\t\tapplicablePolicy = (&policyStatement).clone()\n\t\t}\n\t}\n'
+def idx_new(use_exact='exact >= 0', use_wild='wildcard >= 0'):
+    return '\tvar wildcardPolicy *OCITrustPolicy\n\tvar applicablePolicy *OCITrustPolicy\n\texact, wildcard := policyDoc.positions(artifactPath)\n\tif ' + use_exact + ' {\n\t\tapplicablePolicy = policyDoc.TrustPolicies[exact].clone()\n\t}\n\tif ' + use_wild + ' {\n\t\twildcardPolicy = policyDoc.TrustPolicies[wildcard].clone()\n\t}\n'
+def idx_helper(ret='exact, wildcard', init='-1, -1'):
+    return (TP, '// clone returns a pointer to the deep copied [OCITrustPolicy]', 'func (policyDoc *OCIDocument) positions(artifactPath string) (int, int) {\n\texact, wildcard := ' + init + '\n\tfor i := range policyDoc.TrustPolicies {\n\t\tscopes := policyDoc.TrustPolicies[i].RegistryScopes\n\t\tif slices.Contains(scopes, trustpolicy.Wildcard) {\n\t\t\twildcard = i\n\t\t} else if slices.Contains(scopes, artifactPath) {\n\t\t\texact = i\n\t\t}\n\t}\n\treturn ' + ret + '\n}\n\n// clone returns a pointer to the deep copied [OCITrustPolicy]')
+VARIANTS += [
+ dict(name='benign-positions-from-helper', file=TP, expect='silent', find=IDX_OLD, replace=idx_new(), edits=[idx_helper()]),
+ dict(name='positions-from-helper-unguarded', file=TP, expect='flagged(index/(*ngo/verifier/trustpolicy.OCIDocument).GetApplicableTrustPolicy)', find=IDX_OLD, replace=idx_new(use_wild='wildcard != 0'), edits=[idx_helper()]),
+ dict(name='positions-helper-returns-one-past', file=TP, expect='flagged(index/(*ngo/verifier/trustpolicy.OCIDocument).GetApplicableTrustPolicy)', find=IDX_OLD, replace=idx_new(), edits=[idx_helper(ret='exact, wildcard + 1')]),
+ dict(name='positions-helper-returns-length-for-none', file=TP, expect='flagged(index/(*ngo/verifier/trustpolicy.OCIDocument).GetApplicableTrustPolicy)', find=IDX_OLD, replace=idx_new(), edits=[idx_helper(init='len(policyDoc.TrustPolicies), -1')]),
+]
+
+# the outcome produced, together with an error, by a helper that also runs the signature processing
+PR_OLD = '\toutcome := &notation.VerificationOutcome{\n\t\tRawSignature:      signature,\n\t\tVerificationLevel: verificationLevel,\n\t}\n\t// verificationLevel is skip\n\tif reflect.DeepEqual(verificationLevel, trustpolicy.LevelSkip) {\n\t\tlogger.Debug("Skipping signature verification")\n\t\treturn outcome, nil\n\t}\n\terr = v.processSignature(ctx, signature, envelopeMediaType, trustPolicy.Name, trustPolicy.TrustedIdentities, trustPolicy.TrustStores, trustPolicy.SignatureVerification, pluginConfig, outcome)\n\n\tif err != nil {\n\t\toutcome.Error = err\n\t\treturn outcome, err\n\t}\n'
+def pr_new(test='err != nil || skipped'):
+    return '\toutcome, skipped, err := v.evaluate(ctx, signature, envelopeMediaType, trustPolicy, pluginConfig, verificationLevel)\n\tif ' + test + ' {\n\t\treturn outcome, err\n\t}\n'
+def pr_helper(fail='\t\toutcome.Error = err\n\t\treturn outcome, false, err\n'):
+    return (V, 'func verifyX509TrustedIdentities(', 'func (v *verifier) evaluate(ctx context.Context, signature []byte, envelopeMediaType string, trustPolicy *trustpolicy.OCITrustPolicy, pluginConfig map[string]string, verificationLevel *trustpolicy.VerificationLevel) (*notation.VerificationOutcome, bool, error) {\n\toutcome := &notation.VerificationOutcome{\n\t\tRawSignature:      signature,\n\t\tVerificationLevel: verificationLevel,\n\t}\n\tif reflect.DeepEqual(verificationLevel, trustpolicy.LevelSkip) {\n\t\treturn outcome, true, nil\n\t}\n\tif err := v.processSignature(ctx, signature, envelopeMediaType, trustPolicy.Name, trustPolicy.TrustedIdentities, trustPolicy.TrustStores, trustPolicy.SignatureVerification, pluginConfig, outcome); err != nil {\n' + fail + '\t}\n\treturn outcome, false, nil\n}\n\nfunc verifyX509TrustedIdentities(')
+VARIANTS += [
+ dict(name='benign-outcome-producer-helper', file=V, expect='silent', find=PR_OLD, replace=pr_new(), edits=[pr_helper()]),
+ dict(name='outcome-producer-does-not-record', file=V, expect='flagged(consistency/(*ngo/verifier.verifier).Verify)', find=PR_OLD, replace=pr_new(), edits=[pr_helper(fail='\t\treturn outcome, false, err\n')]),
+ dict(name='outcome-producer-error-not-tested-by-caller', file=V, expect='flagged((*ngo/verifier.verifier).Verify)', find=PR_OLD, replace=pr_new(test='skipped'), edits=[pr_helper()]),
+ dict(name='outcome-producer-skip-not-tested-by-caller', file=V, expect='flagged(nilable/envelope-content/(*ngo/verifier.verifier).Verify)', find=PR_OLD, replace=pr_new(test='err != nil').replace('\tif err != nil {', '\t_ = skipped\n\tif err != nil {'), edits=[pr_helper()]),
+]
